@@ -129,6 +129,21 @@ def enumerate_cases(tier, seed):
             for steps in (1, 2):
                 cases.append({"fam": "y", "entry_enabled": entry_enabled, "shared_args": shared_args, "steps": steps,
                               "mode": "yaml-alias", "ctor": "yaml", "debug": False})
+    # family s: (1) several models configured from ONE argument dictionary object (Python: the same dict; YAML: anchor +
+    # alias inside one group), one of them re-configured afterwards through four entry points; (2) models of one group
+    # that carry the same name (listed order and every enabled pattern), the same model object listed twice
+    for ctor in ("py", "yaml"):
+        for edit in ("none", "attr", "item", "set", "set_other"):
+            for same_group in (True, False):
+                for mode in ("exposure", "obs_seq"):
+                    cases.append({"fam": "s", "kind": "shared", "ctor": ctor, "edit": edit, "same_group": same_group,
+                                  "mode": mode, "debug": False, "steps": 2})
+        for pattern in itertools.product((True, False), repeat=3):
+            for debug in (False, True):
+                cases.append({"fam": "s", "kind": "dupname", "ctor": ctor, "pattern": list(pattern), "mode": "exposure",
+                              "debug": debug, "steps": 2})
+    for n in (2, 3):
+        cases.append({"fam": "s", "kind": "sameobj", "ctor": "py", "n": n, "mode": "exposure", "debug": False, "steps": 2})
     # other running modes: subsets of <= 3 (quick: <= 2) groups and the full pipeline
     msub = cfgx.subsets(GROUPS, 1, 3 if thorough else 2) + [GROUPS]
     for mode in ("obs_seq", "obs_dask", "calibration"):
@@ -325,11 +340,123 @@ def run_alias(case):
             "outcome": [g[:2] for g in got][:8]}
 
 
+def run_shared(case):
+    """family s: one argument dictionary object behind several models / equal names inside a group"""
+    import pyxel
+    import yaml
+    from pyxel.observation import Observation, ParameterValues
+    from pyxel.pipelines import Processor
+
+    seed = int(os.environ.get("VERIF_SEED", "0") or 0)
+    viol = []
+    steps = case["steps"]
+    kind = case["kind"]
+
+    def bad(code, what):
+        viol.append(({"fam": "s", "kind": kind, "ctor": case["ctor"], "mode": case["mode"], "code": code},
+                     f"[{kind}/{case['ctor']}/{case['mode']}] {what}; case={case}"))
+
+    def run(det, pipe, modeobj=None):
+        probes.reset()
+        if case["mode"] == "obs_seq":
+            obs = Observation(parameters=[ParameterValues(key="detector.environment.temperature", values=[100, 200])],
+                              mode="product", readout=mk.readout([float(i + 1) for i in range(steps)]), with_dask=False)
+            pyxel.run_mode(obs, det, pipe, with_inherited_coords=True)
+            return 2
+        pyxel.run_mode(modeobj or mk.exposure([float(i + 1) for i in range(steps)]), det, pipe, debug=case["debug"],
+                       with_inherited_coords=True)
+        return 1
+
+    try:
+        if kind == "shared":
+            common = {"a": 3 + seed % 5, "v": [1, 2]}
+            g2 = "photon_collection" if case["same_group"] else "charge_collection"
+            layout = {"photon_collection": ["sa"]}
+            layout[g2] = layout.get(g2, []) + ["sb"]
+            if case["ctor"] == "py":
+                from pyxel.pipelines import ModelFunction
+
+                ms = {n: ModelFunction(func="vp.probes.rec", name=n, arguments=common, enabled=True) for n in ("sa", "sb")}
+                pipe = mk.pipeline({g: [ms[n] for n in ns] for g, ns in layout.items()})
+                det = mk.detector("ccd", 2, 3)
+                modeobj = None
+            else:
+                doc = yaml.safe_load(yaml_text(_pipe_spec([]), steps, seed))
+                doc["pipeline"] = {g: [{"name": n, "func": "vp.probes.rec", "enabled": True, "arguments": common}
+                                       for n in ns] for g, ns in layout.items()}
+                text = yaml.safe_dump(doc, sort_keys=False)
+                if "&id" not in text or "*id" not in text:
+                    raise RuntimeError("harness: the generated YAML contains no anchor/alias")
+                cfg = pyxel.loads(text)
+                det, pipe, modeobj = cfg.detector, cfg.pipeline, cfg.running_mode
+            want = {"sa": eval(repr(common)), "sb": eval(repr(common))}
+            proc = Processor(detector=det, pipeline=pipe)
+            sa = pipe.photon_collection.sa
+            if case["edit"] == "attr":
+                sa.arguments.a = 77
+                want["sa"]["a"] = 77
+            elif case["edit"] == "item":
+                sa.arguments["v"] = [7, 8, 9]
+                want["sa"]["v"] = [7, 8, 9]
+            elif case["edit"] == "set":
+                proc.set("pipeline.photon_collection.sa.arguments.a", 78)
+                want["sa"]["a"] = 78
+            elif case["edit"] == "set_other":
+                proc.set(f"pipeline.{g2}.sb.arguments.a", 79)
+                want["sb"]["a"] = 79
+            reps = run(det, pipe, modeobj)
+            got = [(t["name"], t["step"], t["kw"]) for t in probes.TRACE]
+            order = [n for g in GROUPS for n in layout.get(g, [])]
+            exp = [(n, s_, probes.tagged(want[n])) for _ in range(reps) for s_ in range(steps) for n in order]
+            if got != exp:
+                code = "arguments" if [x[:2] for x in got] == [x[:2] for x in exp] else "trace"
+                bad(code, f"executed {got}, configured {exp}")
+            return {"viol": viol, "sig": cfgx.sig(case), "nontrivial": True, "n": len(got), "outcome": [x[:2] for x in got][:6]}
+        if kind == "dupname":
+            pat = case["pattern"]
+            entries = [("dup", {"a": 1}, pat[0]), ("mid", {"a": 2}, pat[1]), ("dup", {"a": 3}, pat[2])]
+            if case["ctor"] == "py":
+                pipe = mk.pipeline({"charge_collection": [mk.model("vp.probes.rec", n, dict(a), en) for n, a, en in entries],
+                                    "photon_collection": [mk.model("vp.probes.rec", "dup", {"a": 9}, True)]})
+                det, modeobj = mk.detector("ccd", 2, 3), None
+            else:
+                doc = yaml.safe_load(yaml_text(_pipe_spec([]), steps, seed))
+                doc["pipeline"] = {"charge_collection": [{"name": n, "func": "vp.probes.rec", "enabled": en, "arguments": dict(a)}
+                                                         for n, a, en in entries],
+                                   "photon_collection": [{"name": "dup", "func": "vp.probes.rec", "enabled": True,
+                                                          "arguments": {"a": 9}}]}
+                cfg = pyxel.loads(yaml.safe_dump(doc, sort_keys=False))
+                det, pipe, modeobj = cfg.detector, cfg.pipeline, cfg.running_mode
+            run(det, pipe, modeobj)
+            got = [(t["name"], t["step"], t["kw"]) for t in probes.TRACE]
+            exp = []
+            for s_ in range(steps):
+                exp.append(("dup", s_, probes.tagged({"a": 9})))
+                exp += [(n, s_, probes.tagged(a)) for n, a, en in entries if en]
+            if got != exp:
+                bad("trace", f"executed {got}, listed {exp}")
+            return {"viol": viol, "sig": cfgx.sig(case), "nontrivial": True, "n": len(got), "outcome": [x[:2] for x in got][:6]}
+        # the same model object listed n times in one group
+        m = mk.model("vp.probes.rec", "same", {"a": 4}, True)
+        pipe = mk.pipeline({"charge_collection": [m] * case["n"]})
+        run(mk.detector("ccd", 2, 3), pipe)
+        got = [(t["name"], t["step"]) for t in probes.TRACE]
+        exp = [("same", s_) for s_ in range(steps) for _ in range(case["n"])]
+        if got != exp:
+            bad("trace", f"executed {got}, listed {exp}")
+        return {"viol": viol, "sig": cfgx.sig(case), "nontrivial": True, "n": len(got), "outcome": got[:6]}
+    except Exception as e:  # noqa: BLE001
+        bad("raised", f"raised {type(e).__name__}: {str(e)[:300]}")
+        return {"viol": viol, "sig": cfgx.sig(case), "nontrivial": True}
+
+
 def run_case(case):
     import pyxel
 
     if case["fam"] == "e":
         return run_history(case)
+    if case["fam"] == "s":
+        return run_shared(case)
     if case["fam"] == "y":
         return run_alias(case)
     seed = int(os.environ.get("VERIF_SEED", "0") or 0)
